@@ -85,15 +85,15 @@ inductive IterEnd | eof | err
 The directory iterator driven like tar2sqfs drives it: `next`, read the file stream of every regular file
 to its end, `next`, …  `skip` = `record_size` + `padding` still to be skipped before the next header.
 -/
-def iterLoop (repaired : Bool) : Nat → Bytes → Nat → List IterEntry → List IterEntry × IterEnd
+def iterLoop (cfg : ReadCfg) : Nat → Bytes → Nat → List IterEntry → List IterEntry × IterEnd
   | 0, _, _, acc => (acc, .err)
   | f + 1, s, skip, acc =>
-    match (if repaired then readHeader (s.drop skip) else readHeaderCur (s.drop skip)) with
+    match readHeaderWith cfg (s.drop skip) with
     | .eof => (acc, .eof)
     | .err => (acc, .err)
     | .ok d s' =>
       let pad := padding d.recordSize
-      if d.unknown then iterLoop repaired f s' (d.recordSize + pad) acc                  -- `goto retry`
+      if d.unknown then iterLoop cfg f s' (d.recordSize + pad) acc                  -- `goto retry`
       else
         match Sqfs.Path.canonicalize (d.name.getD []) with
         | none => (acc, .err)                                                    -- `SQFS_ERROR_CORRUPTED`
@@ -107,13 +107,15 @@ def iterLoop (repaired : Bool) : Nat → Bytes → Nat → List IterEntry → Li
             let e : IterEntry := ⟨nm, mode, d.hardLink, d.uid, d.gid, d.mtime, size, link, some r, d.devMajor, d.devMinor, d.xattr⟩
             match r.ending with
             | .corrupted => (acc ++ [e], .err)                                   -- iterator state poisoned by `drop_parent`
-            | .eof => iterLoop repaired f r.stream (r.recordSize + pad) (acc ++ [e])
+            | .eof => iterLoop cfg f r.stream (r.recordSize + pad) (acc ++ [e])
           else
-            iterLoop repaired f s' (d.recordSize + pad) (acc ++ [⟨nm, mode, d.hardLink, d.uid, d.gid, d.mtime, size, link, none, d.devMajor, d.devMinor, d.xattr⟩])
+            iterLoop cfg f s' (d.recordSize + pad) (acc ++ [⟨nm, mode, d.hardLink, d.uid, d.gid, d.mtime, size, link, none, d.devMajor, d.devMinor, d.xattr⟩])
 
-def iterate (s : Bytes) : List IterEntry × IterEnd := iterLoop true (s.length / 512 + 2) s 0 []
+def iterateWith (cfg : ReadCfg) (s : Bytes) : List IterEntry × IterEnd := iterLoop cfg (s.length / 512 + 2) s 0 []
+
+def iterate (s : Bytes) : List IterEntry × IterEnd := iterateWith {} s
 
 /-- the iterator over the unrepaired `read_header` (D22: `record_size` wraps, the rest of the archive is skipped) -/
-def iterateCur (s : Bytes) : List IterEntry × IterEnd := iterLoop false (s.length / 512 + 2) s 0 []
+def iterateCur (s : Bytes) : List IterEntry × IterEnd := iterateWith { rejectOversizedMap := false, xattrKeepOrder := false } s
 
 end Sqfs.Tar
